@@ -1,5 +1,5 @@
 From Coq Require Import ZArith List Bool.
-From V Require Import Val Bytes Writers.
+From V Require Import Val Bytes Writers C13Pool.
 Import ListNotations.
 Open Scope Z_scope.
 
@@ -34,3 +34,34 @@ Definition x_C13_sink_ok (v : val) : val :=
   let c := nthv 0 v in
   let a := map msg_bytes (dec_msgs (nthv 0 c)) in let b := map msg_bytes (dec_msgs (nthv 1 c)) in
   vbool (ok_sink (length a + length b) a b (as_bytes (nthv 0 (nthv 1 v)))).
+
+(* ---------- pooled staging buffers (Model/C13Pool.v) ---------- *)
+
+(* instr = (0 v reset) | (1 v b) | (2 v bytes) | (3 v k) | (4 v) *)
+Definition dec_instr (v : val) : instr :=
+  match as_int (nthv 0 v) with
+  | 0 => IGet (as_nat (nthv 1 v)) (as_bool (nthv 2 v))
+  | 1 => IAlias (as_nat (nthv 1 v)) (as_nat (nthv 2 v))
+  | 2 => IWrite (as_nat (nthv 1 v)) (as_bytes (nthv 2 v))
+  | 3 => ISend (as_nat (nthv 1 v)) (as_nat (nthv 2 v))
+  | _ => IPut (as_nat (nthv 1 v))
+  end.
+Definition dec_progs (v : val) : list (list instr) := map (fun p => map dec_instr (as_list p)) (as_list v).
+Definition enc_obs (o : list (wconn * list bytes)) : val :=
+  vlist (fun e => VL [vnat (fst e); vlist VB (snd e)]) o.
+
+(* case = (programs schedule connections); schedule = ((goroutine choice) ..)
+   result = (((k (message ..)) ..) (pool ..) finished disciplined) *)
+Definition x_C13_pool_run (c : val) : val :=
+  let progs := dec_progs (nthv 0 c) in
+  let s := prun (map (fun e => (as_nat (nthv 0 e), as_nat (nthv 1 e))) (as_list (nthv 1 c))) (pinit progs) in
+  VL [enc_obs (pobserve (map as_nat (as_list (nthv 2 c))) s); vlist vnat (ps_pool s);
+      vbool (pfinished (length progs) s); vbool (disciplined progs)].
+
+(* oracle on ((programs ..) (((k (message ..)) ..) (drained ..))): the function of C13_model_passes_pool *)
+Definition x_C13_pool_ok (v : val) : val :=
+  let progs := dec_progs (nthv 0 (nthv 0 v)) in
+  let o := nthv 1 v in
+  vbool (ok_pool progs
+                 (map (fun e => (as_nat (nthv 0 e), map as_bytes (as_list (nthv 1 e)))) (as_list (nthv 0 o)))
+                 (map as_nat (as_list (nthv 1 o)))).
